@@ -89,6 +89,24 @@ class GenId(BoboGenEventID):
         return v
 
 
+class SlotGen(BoboGenEventID):
+    """a run-identifier generator that hands out the lowest identifier no ACTIVE run holds (a pool of slots): all the decider
+    asks of run identifiers is that no two active runs of a pattern share one; two runs that finished one after the other
+    may well have had the same identifier -- they are still two runs"""
+
+    def __init__(self, prefix):
+        super().__init__()
+        self.prefix = prefix
+        self.dec = None
+
+    def generate(self) -> str:
+        active = {r.run_id for r in self.dec.all_runs()} if self.dec is not None else set()
+        k = 0
+        while f'{self.prefix}{k}' in active:
+            k += 1
+        return f'{self.prefix}{k}'
+
+
 class GenTs(BoboGenTimestamp):
     def __init__(self):
         super().__init__()
@@ -256,7 +274,7 @@ class Rig(BoboReceiverSubscriber, BoboDeciderSubscriber, BoboProducerSubscriber,
         self.seen = []            # events handed to the matcher
         self.script = []          # matcher outputs during the current op
         self.phen_objs = {}
-        gid, gts, grun = GenId('e'), GenTs(), GenId('r')
+        gid, gts, grun = GenId('e'), GenTs(), (SlotGen('r') if case.get('recycle') else GenId('r'))
         phens_all, phens_p, phens_f = [], [], []
         for ph in case['phens']:
             act = None
@@ -296,6 +314,8 @@ class Rig(BoboReceiverSubscriber, BoboDeciderSubscriber, BoboProducerSubscriber,
                              times_receiver=tR, times_decider=tD, times_producer=tP, times_forwarder=tF,
                              early_stop=bool(early))
         self.eng = eng
+        if isinstance(grun, SlotGen):
+            grun.dec = eng.decider
         # recorders are subscribed AFTER the engine wired itself (they only add calls at the end of each fan-out)
         eng.receiver.subscribe(self)
         eng.decider.subscribe(self)
@@ -626,6 +646,7 @@ def gen_case(rng, cfg, build):
             ops.append(['update'])
     return {'build': build, 'cfg': cfg, 'validator': validator, 'phens': phens, 'ops': ops,
             'local_only': 0 if build == 'hand' and rng.random() < 0.35 else 1,      # a forwarder that also serves peers' completions
+            'recycle': int(rng.random() < 0.3),                                      # run identifiers from a pool of slots (SlotGen)
             'opaque': int(validator == 'all' and rng.random() < 0.4)}
 
 
